@@ -122,7 +122,8 @@ func sameOperation(x, y iface.Operation) bool {
 }
 
 // strings with separators, escapes, control characters and wide code points
-var c14Strings = []string{"key", "q\"b\\s/:~\n\t", "ctl\x07\x0b\x00\x1c\x7f", "\u00e9\u4e2d\U0001F600\U000E0001"}
+var c14Strings = []string{"key", "q\"b\\s/:~\n\t", "ctl\x07\x0b\x00\x1c\x7f", "\u00e9\u4e2d\U0001F600\U000E0001",
+	"re\\u2028\\u2029\\n\\\"x", "sep\u2028\u2029<>&"}
 
 func VF_C14_Encoding() {
 	w := vfNewWorld()
